@@ -18,9 +18,9 @@ CLAIMED = {
     note='Static rule check, clause-limited as stated. Trusted: rustc constant evaluation and MIR, deku read contracts, the abstract interpreter.',
     ref='DESIGN.md §7 C02'),
  'C03': dict(level='other', engine='absint+dataflow',
-    technique='modular abstract interpretation of every deku reader from bit 0 of a synthetic stream (exact bit positions of primitive reads), MIR dataflow from each read to the field it builds, comparison with a reviewed layout table; path facts at the store of the DF20 BDS 0,5 label; constant tables',
-    text='Layout: for 48 decode types (DF headers, ADS-B ME dispatcher, BDS 0,5 0,6 0,8 0,9 (+3 subtypes) 1,0 1,7 1,8 1,9 2,0 3,0 4,0 4,4 4,5 5,0 6,0 6,1 6,2 6,5 and their sub-structures, AC13/ID13/ICAO fields; 440 fields) each decoded field is built from exactly the bits the standard assigns to it, other bits flow in only as the listed status / sign / type-code dependencies, the bits read and dropped are the reserved ones, and every nested register starts at the tabulated bit of its dispatcher. Characters: both 6-bit tables equal Annex 10 at the 37 defined codes. DF20: every store of Some into DF20DataSelector.bds05 is under the fact payload altitude == header altitude; DF21DataSelector.bds05 is never Some.',
-    note='Static rule check: necessary conditions of the round trip (right bits, right dependencies, right table), not the round trip. Scale / offset arithmetic is decided only as far as C08 (ranges, steps) and C13 (altitude, squawk codes) go. spec/layouts.json was generated from the pinned tree and reviewed against the field tables of ICAO Doc 9871 / DO-260B (DESIGN.md §7 C03); BDS 2,1 and DF19/DF24 are exempt by name.',
+    technique='modular abstract interpretation of every deku reader from bit 0 of a synthetic stream (exact bit positions of primitive reads), MIR dataflow from each read to the field it builds, comparison with a reviewed layout table; per-field slices whose symbolic value expressions are evaluated exhaustively over the field\'s codes against a scale table; path facts at the store of the DF20 BDS 0,5 label; constant tables',
+    text='Layout: for 48 decode types (DF headers, ADS-B ME dispatcher, BDS 0,5 0,6 0,8 0,9 (+3 subtypes) 1,0 1,7 1,8 1,9 2,0 3,0 4,0 4,4 4,5 5,0 6,0 6,1 6,2 6,5 and their sub-structures, AC13/ID13/ICAO fields; 440 fields) each decoded field is built from exactly the bits the standard assigns to it, other bits flow in only as the listed status / sign / type-code dependencies, the bits read and dropped are the reserved ones, and every nested register starts at the tabulated bit of its dispatcher. Characters: both 6-bit tables equal Annex 10 at the 37 defined codes. DF20: every store of Some into DF20DataSelector.bds05 is under the fact payload altitude == header altitude; DF21DataSelector.bds05 is never Some. Scales: for 33 numeric fields (BDS 0,6 0,9 4,0 4,4 4,5 5,0 6,0 6,2: headings, tracks, speeds, rates, temperatures, pressures, selected altitudes) the expression computed on every path of the field\'s reader, evaluated for every combination of the field\'s bits that the path admits (about 60,000 codes), equals the value the standard assigns to that code.',
+    note='Static rule check: necessary conditions of the round trip (right bits, right dependencies, right table, right value per code), not the round trip with an independent encoder. Codes for which the decoder reports nothing (validity filters of the Comm-B inference, rejected registers) are not compared; altitude and squawk codes are C13\'s. The scale table (checker/props/c03_scales.py) is transcribed from Doc 9871 / DO-260B. spec/layouts.json was generated from the pinned tree and reviewed against the field tables of ICAO Doc 9871 / DO-260B (DESIGN.md §7 C03); BDS 2,1 and DF19/DF24 are exempt by name.',
     ref='DESIGN.md §7 C03'),
  'C04': dict(level='other', engine='absint',
     technique='decision-list extraction from branch facts (path enumeration of a comparison-only function) compared with the NL formula; parity facts and float intervals at the result construction sites',
